@@ -221,6 +221,11 @@ func (s *SimSigner) Sign(rand io.Reader, digest []byte, opts crypto.SignerOpts) 
 		s.p.yield("signer.Sign:enter")
 	}
 	if f := s.p.hit(cSign); f != nil {
+		if f.Errno == "partial_sig" {
+			// a device that disappears in the middle of its answer: some bytes AND an error
+			sig, _ := s.inner.Sign(rand, digest, opts)
+			return sig[:len(sig)/2], ErrInjected
+		}
 		return nil, f.E()
 	}
 	if s.FailNext > 0 {
